@@ -5,7 +5,7 @@
      - `\$` is an escape for '$' (strings interpolate `${...}`),
      - a `\x` escape takes at most two hex digits (the C++ rule "as many as follow" makes longer ones
        ill-formed for char anyway). *)
-From Coq Require Import ZArith NArith List Bool.
+From Coq Require Import ZArith NArith List Bool String.
 From ChaiV Require Import NumDefs LexDefs.
 Import ListNotations.
 Local Open Scope Z_scope.
@@ -15,11 +15,12 @@ Inductive lsize := LNone | LLong | LLongLong.
 
 (* integer-suffix: u-suffix and (l-suffix | ll-suffix) in either order; "lL"/"Ll" are not suffixes *)
 Definition is_u (c : N) := (c =? 117)%N || (c =? 85)%N.
+Definition is_l (c : N) := (c =? 108)%N || (c =? 76)%N.
 Definition l_part (s : list N) : option lsize :=
   match s with
   | [] => Some LNone
-  | [108%N] | [76%N] => Some LLong
-  | [108%N; 108%N] | [76%N; 76%N] => Some LLongLong
+  | [a] => if is_l a then Some LLong else None
+  | [a; b] => if is_l a && (a =? b)%N then Some LLongLong else None     (* ll or LL, not lL *)
   | _ => None
   end.
 Definition cxx_suffix (s : list N) : option (bool * lsize) :=
@@ -192,3 +193,29 @@ Fixpoint has_marker_f (fuel : nat) (s : list N) : bool :=
       end
   end.
 Definition has_marker (s : list N) : bool := has_marker_f (S (List.length s)) s.
+
+(* ------------------------------------------------------------------ ChaiScript's word literals and reserved words *)
+Definition kw_spelling (k : kwcase) : list N :=
+  bytes_of_string (match k with
+                   | KW_true => "true" | KW_false => "false" | KW_Infinity => "Infinity" | KW_NaN => "NaN"
+                   | KW_LINE => "__LINE__" | KW_FILE => "__FILE__" | KW_FUNC => "__FUNC__" | KW_CLASS => "__CLASS__"
+                   | KW_placeholder => "_"
+                   end)%string.
+(* names that may not be declared: keywords, the word literals, the placeholder *)
+Definition reserved_words : list (list N) :=
+  map bytes_of_string
+      ["def"; "fun"; "while"; "for"; "if"; "else"; "&&"; "||"; ","; "auto"; "return"; "break"; "true"; "false"; "class"; "attr"; "var";
+       "global"; "GLOBAL"; "_"; "__LINE__"; "__FILE__"; "__FUNC__"; "__CLASS__"]%string.
+(* the textual interpolation marker `${` *)
+Fixpoint has_dollar_brace (s : list N) : bool :=
+  match s with
+  | [] => false
+  | c :: r => ((c =? 36)%N && match r with d :: _ => (d =? 123)%N | [] => false end) || has_dollar_brace r
+  end.
+
+(* how base, prefix and first digit go together in a well-formed integer-literal *)
+Definition int_prefix_ok (base : Z) (pre ds : list N) : Prop :=
+  (base = 16 /\ (pre = [48; 120]%N \/ pre = [48; 88]%N))
+  \/ (base = 2 /\ (pre = [48; 98]%N \/ pre = [48; 66]%N))
+  \/ (base = 8 /\ pre = [] /\ hd 0%N ds = 48%N)
+  \/ (base = 10 /\ pre = [] /\ hd 0%N ds <> 48%N).
